@@ -62,6 +62,7 @@ void Library::copy_from(const Library& library, bool deep_copy) {
     name = copy_string(library.name, NULL);
     unit = library.unit;
     precision = library.precision;
+    properties = properties_copy(library.properties);
     if (deep_copy) {
         cell_array.capacity = library.cell_array.capacity;
         cell_array.count = library.cell_array.count;
